@@ -36,7 +36,7 @@ UNREL = (b"unrelated-zz9", b"")
 
 def shards(tier, seed):
     types = GR.ALL_TYPES
-    mult = 1 if tier == "quick" else 14
+    mult = 1 if tier == "quick" else 80
     out = []
     for i in range(16):
         out.append({"types": types[i::16] + types[(i + 5) % 16::16], "n_rt": 220 * mult, "n_host": 1600 * mult})
